@@ -582,6 +582,8 @@ let run_c02 ic =
         let mi = minfo_of c in
         let file_sum = List.fold_left (fun acc o -> if o.o_kind = "file" && o.o_inpayload then acc + o.o_size else acc) 0 c.pents in
         let obs_meta = List.map (fun (k, v) -> (explode k, explode v)) c.meta in
+        (* deb: the triggers control member, when the package has one, under a pseudo key no control field can have *)
+        let obs_meta = if f = FDeb && c.triggers <> "" then obs_meta @ [(explode "#triggers", explode c.triggers)] else obs_meta in
         let model_text, agree = (match f with
             | FDeb ->
               let t = deb_control arch_deb mi (z_of_int (file_sum / 1024)) in
